@@ -30,7 +30,7 @@ from props import unitlib as ul
 ID = 'C05'
 PROFILES = ['dev']
 REPLAY_PROFILES = ['dev', 'release']
-TIME_LIMIT = {'quick': 900, 'thorough': 3000}
+TIME_LIMIT = {'quick': 900, 'thorough': 3300}
 BUDGET = 150
 FIRST_BUDGET = 50
 SPECIAL = ['°']      # the only non-ASCII character the query lexer admits into a WORD token (μ, Ω and '-' can never reach the unit parser)
@@ -48,7 +48,7 @@ def jobs(tier, seed, report):
     V = voc()
     names = sorted(n for n in V.names if all(ch.isascii() and (ch.isalnum() or ch == "'") or ch == '°' for ch in n))     # names that can be typed as a query word
     report.bounds = {'words': f'all words of <= {L} letters [A-Za-z] (each letter a solver variable), plus one special character among {SPECIAL} at every position for words of <= {L} characters',
-                     'prefixed_names': f'1 symbolic letter in front of every documented name ({len(names)} names); 2 symbolic letters in front of a seeded sample of {10 if tier == "quick" else 160} names' + ('; 3 letters for 30 names' if tier != 'quick' else ''),
+                     'prefixed_names': f'1 symbolic letter in front of every documented name ({len(names)} names); 2 symbolic letters in front of a seeded sample of {10 if tier == "quick" else 80} names' + ('; 3 letters for 8 names' if tier != 'quick' else ''),
                      'names': 'every documented name alone and with μ in front', 'statics': 'every Derived static in the MIR',
                      'expressions': f'up to 3 unit words from {EXPR_WORDS} with symbolic separators and exponents -9..9 ({40 if tier == "quick" else 400} seeded templates)'}
     report.outside = ['arbitrary words longer than the bound that are not <= 3 letters + a documented name', 'expressions with more than 3 words', 'that data.toml documents the vocabulary the project intends (it is the project\'s own generator input)']
@@ -65,10 +65,10 @@ def jobs(tier, seed, report):
     for i in range(0, len(names), 8):
         js.append({'name': f'pref1-{i}', 'kind': 'prefname', 'p': 1, 'names': names[i:i + 8]})
     sample = list(names); rnd.shuffle(sample)
-    for i, nm in enumerate(sample[:10 if tier == 'quick' else 160]):
+    for i, nm in enumerate(sample[:10 if tier == 'quick' else 80]):
         js.append({'name': f'pref2-{nm}', 'kind': 'prefname', 'p': 2, 'names': [nm]})
     if tier != 'quick':
-        for nm in sample[:30]: js.append({'name': f'pref3-{nm}', 'kind': 'prefname', 'p': 3, 'names': [nm]})
+        for nm in sample[:8]: js.append({'name': f'pref3-{nm}', 'kind': 'prefname', 'p': 3, 'names': [nm]})
     for i in range(0, len(names), 40):
         js.append({'name': f'names-{i}', 'kind': 'names', 'names': names[i:i + 40]})
     js.append({'name': 'statics', 'kind': 'statics'})
@@ -79,7 +79,7 @@ def jobs(tier, seed, report):
             tpls.append(ws)
     rnd.shuffle(tpls)
     fixed = [('m', 'm'), ('s', 's'), ('m', 's', 'm'), ('kg', 'm', 's'), ('J', 'kg', 'K'), ('m', 's', 's'), ('km', 'km'), ('km', 'm'), ('N', 'm', 'N')]
-    chosen = fixed + tpls[:(40 if tier == 'quick' else 400)]
+    chosen = fixed + tpls[:(40 if tier == 'quick' else 250)]
     for i, ws in enumerate(chosen):
         exps = tuple(rnd.choice([None, None, '+', '-']) for _ in ws) if i >= len(fixed) else tuple(rnd.choice(['+', '-', None]) for _ in ws)
         js.append({'name': f'expr-{i}-{"_".join(ws)}', 'kind': 'expr', 'words': list(ws), 'exps': list(exps)})
